@@ -211,6 +211,29 @@ def main(mod, argv=None):
             k = mod.finding_key(e) if hasattr(mod, 'finding_key') else e['key']
             viol.setdefault(k, e)
     inconcl = [e for e in events if e['kind'] == 'inconclusive']
+    # A deciding query the solver could not settle is never a pass.  It may still hide a real violation
+    # (satisfiable nonlinear queries are where z3 gives up): hand the obligation to the check's replay,
+    # which exercises the real code on the case's concrete family; a reproduced failure is reported as a
+    # violation (the replay, not the solver, is then the witness), anything else stays inconclusive.
+    if inconcl and getattr(mod, 'REPLAY_UNKNOWN', False):
+        still = []
+        tried = set()
+        for e in inconcl:
+            k = 'unknown:' + (mod.finding_key(e) if hasattr(mod, 'finding_key') else e['key']) + ':' + json.dumps(e.get('info', {}).get('case', {}), sort_keys=True)
+            if k in tried:
+                continue
+            tried.add(k)
+            path = os.path.join(VERIF, 'replays', pid, slug(k) + '.py')
+            try:
+                rep, detail = mod.replay(dict(e, model=e.get('model', {})), path)
+            except Exception as ex:
+                rep, detail = None, str(ex)
+            if rep:
+                e2 = dict(e, kind='violation', model=e.get('model', {}), what=e['what'] + ' [solver: unknown; violation found by the replay on the real code]')
+                viol.setdefault((mod.finding_key(e2) if hasattr(mod, 'finding_key') else e2['key']), e2)
+            else:
+                still.append(e)
+        inconcl = still
     status = 0
     nviol = 0
     lines = []
@@ -256,7 +279,9 @@ def main(mod, argv=None):
     if need and not a.only:
         for name, allowed_missing in need.items():
             cs = covsum.get(name)
-            if cs is None or len(cs['missed']) > allowed_missing:
+            # vacuity guard, not a style rule: the listed functions must be (almost) fully exercised.  The
+            # slack of 15% of the function's lines keeps the guard from tripping on unrelated edits of /repo.
+            if cs is None or (cs['lines'] - cs['hit']) > allowed_missing + 0.15 * cs['lines']:
                 lines.append(f'HARNESS-ERROR property={pid} line coverage of {name} incomplete: {cs}')
                 status = 2 if status != 1 else 1
     wall = time.time() - t0
